@@ -65,6 +65,8 @@ class Cfg:
         self.endless = True  # main ends in `while True:` (needed whenever functions may be emitted)
         self.bitops = True
         self.intrinsics = True
+        self.min_funcs = 0
+        self.call_twice_pct = 0  # chance that main gets extra calls so that a function is called at least twice (never inlined)
         self.terminating_main = False
         self.terminating_with_funcs = False
         self.call_bias = 0  # extra percentage of statements that are calls
@@ -569,6 +571,12 @@ class ProgGen:
                 L += [f"        if {c}x >= {lim}:", f"            {ret()}"]
                 if has_ret:
                     L.append(f"    return {self.expr(vars_)}")
+        elif self.cfg.intrinsics and self.chance(5):
+            # a function that never runs off its end: guard-clause return, then halt-and-catch-fire
+            self.features.add("ends-in-hcf")
+            L.append(f"    if {self.test(vars_)}:")
+            L.append(f"        return {self.expr(vars_)}" if has_ret else "        return")
+            L.append("    hcf()")
         elif has_ret and self.chance(22):
             # every return closes a branch of an if/elif/else that is the function's last statement
             self.features.add("ends-in-if-else-returns")
@@ -616,7 +624,7 @@ class ProgGen:
                 brk = ("(", ")") if ln > 1 and self.chance(25) else ("[", "]")
                 L.append(f"arr{li} = {brk[0]}{items}{brk[1]}")
                 self.named_lists.append((f"arr{li}", ln))
-        nf = self.n(0, cfg.max_funcs)
+        nf = self.n(min(cfg.min_funcs, cfg.max_funcs), cfg.max_funcs)
         for fi in range(nf):
             L += self.function(fi, globs)
         # globals stay writable from main only if no function might alias them -> main never rebinds
@@ -626,6 +634,12 @@ class ProgGen:
         if cfg.terminating_main and (not self.funcs or cfg.terminating_with_funcs):
             self.features.add("terminating-main")
             L += self.block(main_vars, 0, 1, None, n=self.n(1, cfg.main_stmts + 2))
+            for f in self.funcs:
+                while f["calls"] < 2 and not f.get("inner") and self.chance(cfg.call_twice_pct):
+                    f["calls"] += 1
+                    self.features.add("extra-call-in-main")
+                    call = f"{f['name']}({', '.join(self.arg(main_vars) for _ in range(f['npar']))})"
+                    L.append(f"{self.choice(WRITES)} = {call}" if f["has_ret"] and self.chance(60) else call)
         else:
             L += self.block(main_vars, 0, 2, None, n=self.n(0, cfg.main_stmts))
             L.append("while True:")
